@@ -498,12 +498,19 @@ pub fn hook(point: &'static str) {
     let action = DELAY.with(|d| {
         let mut d = d.borrow_mut();
         let st = d.as_mut()?;
-        let Some(i) = POINTS.iter().position(|p| *p == point) else {
-            st.stats.unknown_points += 1;
-            return None;
+        // a point this harness does not know by name (added to /repo later) is still delayed, with the
+        // configuration of one of the four table slots, and counted separately
+        let cfg = match POINTS.iter().position(|p| *p == point) {
+            Some(i) => {
+                st.stats.hits[i] += 1;
+                st.table.points[i]
+            }
+            None => {
+                st.stats.unknown_points += 1;
+                st.table.points[point.len() % 4]
+            }
         };
-        st.stats.hits[i] += 1;
-        let cfg = st.table.points[i];
+        let i = POINTS.iter().position(|p| *p == point).unwrap_or(point.len() % 4);
         let x = xorshift(&mut st.rng);
         if (x & 0xff) as u16 >= cfg.p256 {
             return None;
@@ -882,6 +889,7 @@ fn refresher<'p>(
     done: &AtomicUsize,
 ) -> (Ctx<'p>, HookStats) {
     let mut rng = rng_from(seed, 999);
+    let mut srng = rng_from(seed, 998);
     thread_delay_install(cfg.delay, rng.next_u64());
     let mut next_at = 0u64;
     let mode = cfg.refresher_step;
@@ -892,7 +900,6 @@ fn refresher<'p>(
         }
         let cur = ctx.shared.seq.load(Ordering::Relaxed);
         if cur >= next_at {
-            let mut srng = rng_from(seed, 5000 + cur);
             let mut step = |_i: u8| {
                 let m = if mode == 3 { below(&mut srng, 3) as u8 } else { mode };
                 match m {
